@@ -53,6 +53,8 @@ namespace occa {
 
     void reallocate(const udim_t bytes);
 
+    void migrate(modeBuffer_t* newBuffer, const udim_t align);
+
     virtual modeBuffer_t* makeBuffer()=0;
     virtual void setPtr(modeMemory_t* mem, modeBuffer_t* buf, const dim_t offset)=0;
     virtual void memcpy(modeBuffer_t* dst, const dim_t dstOffset,
